@@ -804,7 +804,7 @@ def hpeer_asymmetric(tier):
             problem = f'closed: negotiated hold time {H}, NOTIFICATION {notes} although the peer was never silent for H seconds'
         elif name.startswith('talking'):
             # one KEEPALIVE answers the OPEN; afterwards one per H/3 s (+ 1 s integer clock + loop gap): at least span/(H/3 + 2) of them
-            need = 1 + int(span // (H // 3 + 2))
+            need = int(span // (H // 3 + 2))
             if kas < need:
                 problem = f'keepalive-late: negotiated hold time {H}: {kas} KEEPALIVEs written in {span} s, at least {need} are due (one per {H // 3} s)'
         elif name.startswith('zero'):
